@@ -569,6 +569,12 @@ func c08GraphUnit() *Unit {
 			{"missing-optional", map[string]string{"Taskfile.yml": "version: '3'\nincludes:\n  a:\n    taskfile: ./nope.yml\n    optional: true\ntasks:\n  t:\n    cmds:\n" + c08Line("root", "t")}, "t", []string{"T=root:t PWD=proj IV="}, 0},
 			{"missing-inside-optional", map[string]string{"Taskfile.yml": "version: '3'\nincludes:\n  a:\n    taskfile: ./a.yml\n    optional: true\ntasks:\n  t:\n    cmds: ['true']\n", "a.yml": "version: '3'\nincludes:\n  gone: ./nope.yml\n"}, "t", nil, -1},
 			{"version-mismatch", map[string]string{"Taskfile.yml": "version: '3'\nincludes:\n  a: ./a.yml\ntasks:\n  t:\n    cmds: ['true']\n", "a.yml": "version: '2'\ntasks:\n  t:\n    cmds: ['true']\n"}, "t", nil, -1},
+			{"version-mismatch-minor", map[string]string{"Taskfile.yml": "version: '3'\nincludes:\n  a: ./a.yml\ntasks:\n  t:\n    cmds: ['true']\n", "a.yml": "version: '3.1'\ntasks:\n  t:\n    cmds: ['true']\n"}, "t", nil, -1},
+			{"version-mismatch-patch-nested", map[string]string{"Taskfile.yml": "version: '3.0.0'\nincludes:\n  a: ./a.yml\ntasks:\n  t:\n    cmds: ['true']\n", "a.yml": "version: '3.0.0'\nincludes:\n  b: ./b.yml\n", "b.yml": "version: '3.0.1'\ntasks:\n  t:\n    cmds: ['true']\n"}, "t", nil, -1},
+			{"versions-equal-in-different-spellings-of-the-same-file", map[string]string{"Taskfile.yml": "version: '3'\nincludes:\n  a: ./a.yml\ntasks:\n  t:\n    cmds:\n" + c08Line("root", "t"), "a.yml": "version: '3'\ntasks:\n  u:\n    cmds: ['true']\n"}, "t", []string{"T=root:t PWD=proj IV="}, 0},
+			// a task of the including file whose literal name equals the full name of an included task
+			{"namespaced-name-collision-with-root-task", map[string]string{"Taskfile.yml": "version: '3'\nincludes:\n  lib: ./lib.yml\ntasks:\n  'lib:build':\n    cmds:\n" + c08Line("root", "lib:build"), "lib.yml": "version: '3'\ntasks:\n  build:\n    cmds:\n" + c08Line("lib", "build")}, "lib:build", nil, -1},
+			{"namespaced-name-collision-nested", map[string]string{"Taskfile.yml": "version: '3'\nincludes:\n  mid: ./mid.yml\n", "mid.yml": "version: '3'\nincludes:\n  in: ./in.yml\ntasks:\n  'in:x':\n    cmds:\n" + c08Line("mid", "in:x"), "in.yml": "version: '3'\ntasks:\n  x:\n    cmds:\n" + c08Line("in", "x")}, "mid:in:x", nil, -1},
 			{"flatten-collision-with-root", map[string]string{"Taskfile.yml": "version: '3'\nincludes:\n  a:\n    taskfile: ./a.yml\n    flatten: true\ntasks:\n  t:\n    cmds: ['true']\n", "a.yml": leaf("a")}, "t", nil, -1},
 			{"flatten-collision-between-includes", map[string]string{"Taskfile.yml": "version: '3'\nincludes:\n  a:\n    taskfile: ./a.yml\n    flatten: true\n  b:\n    taskfile: ./b.yml\n    flatten: true\n", "a.yml": leaf("a"), "b.yml": leaf("b")}, "t", nil, -1},
 			{"included-dotenv-rejected-or-ignored", map[string]string{"Taskfile.yml": "version: '3'\nincludes:\n  a: ./a.yml\n", "a.yml": "version: '3'\ndotenv: ['.env']\ntasks:\n  t:\n    cmds:\n" + c08Line("a", "t")}, "a:t", nil, -1},
